@@ -76,6 +76,9 @@ class SDM():
         # Q-peaks are no atoms: they neither bond nor belong to a molecule.
         all_atoms = [at for at in self.shx.atoms.all_atoms if not at.qpeak]
         self.bondlist.clear()
+        # A second call on the same object starts from scratch instead of appending to the previous result:
+        self.sdm_list.clear()
+        self.maxmol = 1
         for i, at1 in enumerate(all_atoms):
             prime_array = [Array(at1.frac_coords) * symop.matrix + symop.trans for symop in self.shx.symmcards]
             for j, at2 in enumerate(all_atoms):
